@@ -39,6 +39,13 @@ def knobs_from(rng, tier):
     }
 
 
+def gen_instability(rr, p=0.1):
+    if rr.random() >= p:
+        return []
+    t = rr.choice([0.0, 1.0, 5.0, 20.0, 40.0])
+    return [t + 25.0 * k for k in range(rr.choice([1, 2, 6]))]
+
+
 def gen_pauses(rr, p=0.2):
     if rr.random() >= p:
         return []
